@@ -74,6 +74,25 @@ func (g *Gen) c16Floats() []float64 {
 	for k := 0; k < g.pick(200, 5000); k++ {
 		add(float64(g.rng.Uint64()))
 	}
+	// every power of two that is an integer type's limit or near one, with its neighbours
+	for _, p := range []int{7, 8, 15, 16, 24, 31, 32, 52, 53, 54, 62, 63, 64, 65, 127, 128} {
+		x := math.Ldexp(1, p)
+		add(x)
+		add(math.Nextafter(x, 0))
+		add(math.Nextafter(x, math.Inf(1)))
+	}
+	// dyadic rationals k / 2^n: their exact decimal expansions end in 5 - the exact-tie cases of digit
+	// generation (round half to even on the last digit)
+	for n := 1; n <= 60; n++ {
+		for k := 1; k <= 33; k += 2 {
+			if g.thorough() || (n+k)%3 == 0 {
+				add(math.Ldexp(float64(k), -n))
+			}
+		}
+	}
+	for k := 0; k < g.pick(150, 3000); k++ { // and larger ones: an integer part plus a short dyadic fraction
+		add(float64(g.rng.Intn(1<<uint(g.rng.Intn(44)))) + math.Ldexp(float64(1+2*g.rng.Intn(16)), -1-g.rng.Intn(24)))
+	}
 	n := len(fs)
 	for i := 0; i < n; i += 2 {
 		fs = append(fs, -fs[i])
